@@ -18,6 +18,7 @@
 //                          redset / redmap exhaustive histories, reduced 18-op alphabet, longer
 //                          random         random histories <= 400 ops over 1..8 heap-owning string keys
 //                          fixed          a few scripted cases (default size arguments etc.)
+//                          bigsz          exhaustive length <= 3 over every size-taking entry point x boundary sizes of size_t
 // Not instantiated (do not compile, see notes/c12.md): LRUMap::insert(const K&, const V&, size_t),
 // LRUMap::at(const K&) const.
 #include <inttypes.h>
@@ -169,6 +170,7 @@ static inline uint8_t shape_of(const Op& o, const Model& a, const Model& b) {
 static const char* const cont_name[2] = {"lruset", "lrumap"};
 static uint64_t cls_count[2][K_NKINDS][S_NSHAPES];
 static uint64_t drain_count[2][3];
+static uint64_t big_count[2][K_NKINDS];  // size-taking calls with a size >= 2^63 (top bit set)
 static uint64_t n_histories, n_throw_expected;
 
 // ------------------------------------------------------------------------------------------------
@@ -427,7 +429,9 @@ static Expect model_step(int cont, Model& a, Model& b, const Op& op, int64_t val
     case K_TOUCH:
     case K_TOUCH_SZ:
       if (idx >= 0) {
-        if (op.kind == K_TOUCH_SZ) a.v[idx].size = op.size;
+        // touch(k, ssize_t new_size = -1): the header's parameter is signed and "negative = keep the size",
+        // so a value >= 2^63 passed here legitimately means "keep" (it is not a size_t entry point)
+        if (op.kind == K_TOUCH_SZ && (int64_t)op.size >= 0) a.v[idx].size = op.size;
         a.touch(idx);
       }
       e.has_ret = true;
@@ -539,6 +543,7 @@ struct SetRunner {
   bool step(const Op& op, int64_t valid, Fail& f) {
     Expect ex = model_step(CONT, ma, mb, op, valid);
     Got g;
+    vf::poison_errno();
     try {
       switch (op.kind) {
         case K_INSERT: {
@@ -638,6 +643,7 @@ struct MapRunner {
   bool step(const Op& op, int64_t valid, Fail& f) {
     Expect ex = model_step(CONT, ma, mb, op, valid);
     Got g;
+    vf::poison_errno();
     try {
       switch (op.kind) {
         // (the const-reference insert overload does not instantiate; the rvalue one is used)
@@ -734,7 +740,10 @@ static HistResult exec_history(const Op* ops, size_t n, bool count, bool drain_t
   for (size_t i = 0; i < n; i++) {
     uint8_t sh = shape_of(ops[i], r.ma, r.mb);
     if (crumb_step) *crumb_step = i;
-    if (count) cls_count[R::CONT][ops[i].kind][sh]++;
+    if (count) {
+      cls_count[R::CONT][ops[i].kind][sh]++;
+      if ((ops[i].size >> 63) && sized(ops[i].kind)) big_count[R::CONT][ops[i].kind]++;
+    }
     if (!r.step(ops[i], val_base + (int64_t)i + 1, hr.f)) {
       hr.ok = false;
       hr.fail_step = i;
@@ -846,6 +855,32 @@ static std::vector<Op> alphabet(int cont, bool reduced) {
     a.push_back({K_SWAP, 0, 0});
     a.push_back({K_CLEAR, 0, 0});
   }
+  return a;
+}
+
+// Boundary magnitudes of size_t.  Sizes are size_t in the API, so total_size arithmetic is modulo 2^64 (the
+// model uses uint64_t, i.e. exactly that); every size-taking entry point must store the value it was given.
+static const uint64_t BIG_SIZES[] = {1ULL << 31, 1ULL << 32, (1ULL << 63) - 1, 1ULL << 63, (1ULL << 63) + 7, ~0ULL - 1, ~0ULL};
+
+// 2 keys; every size-taking entry point x {0, 1, boundary sizes}; erase, item_size, evict, swap
+static std::vector<Op> alphabet_big(int cont) {
+  std::vector<Op> a;
+  std::vector<uint64_t> sizes = {0, 1};
+  for (uint64_t b : BIG_SIZES) sizes.push_back(b);
+  std::vector<uint8_t> kinds = {K_INSERT, K_EMPLACE, K_TOUCH_SZ, K_CHSZ};
+  if (cont == 1) {
+    kinds.push_back(K_CHSZ_T);
+    kinds.push_back(K_CHSZ_NT);
+  }
+  for (uint8_t kind : kinds)
+    for (uint8_t k = 0; k < 2; k++)
+      for (uint64_t sz : sizes) a.push_back({kind, k, sz});
+  for (uint8_t k = 0; k < 2; k++) a.push_back({K_ERASE, k, 0});
+  if (cont == 1)
+    for (uint8_t k = 0; k < 2; k++) a.push_back({K_ITEMSZ, k, 0});
+  a.push_back({K_EVICT, 0, 0});
+  if (cont == 0) a.push_back({K_PEEK, 0, 0});
+  a.push_back({K_SWAP, 0, 0});
   return a;
 }
 
@@ -1017,13 +1052,14 @@ static std::vector<Op> gen_history(vf::Rng& r, int cont) {
     Op o{kind, 0, 0};
     if (keyed(kind)) o.key = (uint8_t)r.below(nk);
     if (sized(kind)) {
-      switch (r.below(6)) {
+      switch (r.below(8)) {
         case 0: o.size = 0; break;
         case 1: o.size = 1; break;
         case 2: o.size = 2; break;
         case 3: o.size = r.below(1000); break;
-        case 4: o.size = 1ULL << r.below(41); break;
-        default: o.size = r.below(100000); break;
+        case 4: o.size = 1ULL << r.below(64); break;
+        case 5: o.size = r.below(100000); break;
+        default: o.size = BIG_SIZES[r.below(sizeof(BIG_SIZES) / sizeof(BIG_SIZES[0]))]; break;
       }
     }
     h.push_back(o);
@@ -1113,6 +1149,14 @@ int main(int argc, char** argv) {
     c.count("alphabet_map_reduced", c.shard == 0 ? al.size() : 0);
     exhaustive<MapI>("redmap", al, red_len, 5);
   }
+  if (want("bigsz")) {
+    // every history of length 1..3 over the boundary-size alphabets (2 keys)
+    auto as = alphabet_big(0), am = alphabet_big(1);
+    c.count("alphabet_set_bigsize", c.shard == 0 ? as.size() : 0);
+    c.count("alphabet_map_bigsize", c.shard == 0 ? am.size() : 0);
+    exhaustive<SetI>("bigset", as, 3);
+    exhaustive<MapI>("bigmap", am, 3);
+  }
   if (want("closet")) closure<SetI>("closure-set", alphabet(0, false));
   if (want("closmap")) closure<MapI>("closure-map", alphabet(1, false));
   if (want("random")) {
@@ -1128,6 +1172,8 @@ int main(int argc, char** argv) {
     for (int k = 0; k < K_NKINDS; k++)
       for (int s = 0; s < S_NSHAPES; s++)
         if (cls_count[ct][k][s]) c.cls(fmt("%s:%s:%s", cont_name[ct], kind_name[k], shape_name[s]), cls_count[ct][k][s]);
+    for (int k = 0; k < K_NKINDS; k++)
+      if (big_count[ct][k]) c.cls(fmt("%s:%s:size>=2^63", cont_name[ct], kind_name[k]), big_count[ct][k]);
     static const char* const dn[3] = {"empty", "one", "many"};
     for (int d = 0; d < 3; d++)
       if (drain_count[ct][d]) c.cls(fmt("%s:final-drain:%s", cont_name[ct], dn[d]), drain_count[ct][d]);
